@@ -563,6 +563,12 @@ fn spawn_async_ao_list_in_task'''),
         ('tilde-result-via-string-conversion', 'brush-core/src/expansion.rs', "                Expansion::from(ExpansionPiece::Unsplittable(\n                    self.expand_tilde_expression(&tilde_expr)?.to_string(),\n                ))", "                Expansion::from(self.expand_tilde_expression(&tilde_expr)?.to_string())"),
         ('field-from-piece-drops-it', 'brush-core/src/expansion.rs', "impl From<ExpansionPiece> for WordField {\n    fn from(piece: ExpansionPiece) -> Self {\n        Self(vec![piece])", "impl From<ExpansionPiece> for WordField {\n    fn from(piece: ExpansionPiece) -> Self {\n        Self(vec![ExpansionPiece::Splittable(String::new()), piece])"),
     ],
+    'U5b': [
+        ('subscript-evaluated-from-depth-zero', 'brush-core/src/arithmetic.rs', "let index_str = eval_expr_impl(index_expr, shell, depth)?.to_string();", "let index_str = index_expr.eval(shell)?.to_string();", 0),
+        ('contents-evaluated-at-same-depth', 'brush-core/src/arithmetic.rs', "    eval_expr_impl(&parsed_value, shell, new_depth)\n}", "    eval_expr_impl(&parsed_value, shell, depth)\n}"),
+        ('limit-check-dropped', 'brush-core/src/arithmetic.rs', "    if new_depth > MAX_VARIABLE_DEREF_DEPTH {\n        return Err(EvalError::RecursionLimitExceeded);\n    }\n", ""),
+        ('limit-check-off-by-far', 'brush-core/src/arithmetic.rs', "    if new_depth > MAX_VARIABLE_DEREF_DEPTH {", "    if new_depth > MAX_VARIABLE_DEREF_DEPTH * 1024 {"),
+    ],
     'U16': [
         ('tilde-not-flagged-at-start', 'brush-core/src/escape.rs', "    matches!(c, '#' | '~')", "    matches!(c, '#')"),
         ('bang-not-flagged', 'brush-core/src/escape.rs', "            | '!'\n", ""),
